@@ -31,7 +31,7 @@ PROPERTY = "C19"
 LEVEL = "exploration"
 RULE = (
     "one case = one file's (BASE, THIS, OTHER) text triple merged into a working tree under one setting of (reprocess, show_base, "
-    "how the base is chosen: found | explicit ancestor | cherrypick | reverse cherrypick, THIS committed or not, resolve action + "
+    "how the base is chosen: found | explicit ancestor | cherrypick | reverse cherrypick | a revision older than the file (no BASE text, no .BASE helper), THIS committed or not, resolve action + "
     "selection); a run evaluates 1-3 files; non-trivial run = at least one file whose three texts are pairwise different (a real "
     "text merge ran); distinct = distinct event-log digests of such runs"
 )
@@ -52,6 +52,7 @@ ASSUMPTIONS = [
     "texts never contain NUL (binary files take the contents-conflict path, not the text merge)",
     "reprocess together with show_base is refused by the code (CantReprocessAndShowBase from inside the merge): the oracle then only requires that the tree is left exactly as it was (texts, no helpers, no conflict records); when no file needs a text merge the combination is accepted and judged like any other run",
     "only Merge3Merger: WeaveMerger / LCAMerger do not take base/this/other texts (their reference would be the weave plan) and are exercised by C17",
+    "mode nobase (merge -r 1..-1 of files added in r2): the reference merges against an empty BASE and no .BASE helper is expected; before resolve the user may have deleted helper files (never the one the action renames into place): afterwards still no helper and no record may be left",
     "resolve is called with action take_this / take_other only (what the property names); 'done' and 'auto' are not judged",
     "runs execute in-process (ISOLATION=thread): each run builds both branches, trees and the Sim from scratch",
 ]
@@ -66,7 +67,7 @@ ORD = ["a", "b", "c", "d", "e"]
 MARK = ["<<<<<<< TREE", "=======", ">>>>>>> MERGE-SOURCE", "||||||| BASE-REVISION", "<<<<<<<", ">>>>>>>", "<<<<<<< MERGE-SOURCE"]
 SENT = ["!START OF MERGE CONFLICT!I HOPE THIS IS UNIQUE TREE", "!START OF MERGE CONFLICT!I HOPE THIS IS UNIQUE"]
 NAMES = ["f", "g", "h h", "fü"]
-MODES = ["found", "found", "found", "explicit", "cherrypick", "cherrypick", "reverse"]
+MODES = ["found", "found", "found", "explicit", "cherrypick", "cherrypick", "reverse", "nobase", "nobase"]
 
 
 def warm():
@@ -150,7 +151,7 @@ def gen_triple(rng, name, mode):
     else:
         other = _mutate(rng, base, pmark)
     f = {"name": name, "base": _render(rng, base, eol, pcut), "this": _render(rng, this, eol, pcut), "other": _render(rng, other, eol, pcut)}
-    if mode in ("cherrypick", "reverse"):
+    if mode in ("cherrypick", "reverse", "nobase"):
         f["orig"] = _render(rng, _mutate(rng, rng.choice([base, this]), pmark), eol, pcut)
     return f
 
@@ -177,6 +178,8 @@ def _generate(rng):
     if rng.random() < 0.8:
         paths = None if rng.random() < 0.4 else sorted(rng.sample(names, rng.randint(1, len(names))))
         res = {"action": rng.choice(["take_this", "take_other"]), "paths": paths}
+        if rng.random() < 0.3:
+            res["rm_helpers"] = sorted(rng.sample([".BASE", ".THIS", ".OTHER"], rng.randint(1, 2)))
     return {"dir": rng.choice(["", "", "d"]), "mode": mode, "reprocess": reprocess, "show_base": show_base, "commit_this": rng.random() < 0.5, "files": files, "resolve": res}
 
 
@@ -201,6 +204,11 @@ def shrink_candidates(plan):
         p = copy.deepcopy(plan)
         p["mode"] = "found"
         yield p
+    if plan.get("resolve") and plan["resolve"].get("rm_helpers"):
+        for i in range(len(plan["resolve"]["rm_helpers"])):
+            p = copy.deepcopy(plan)
+            del p["resolve"]["rm_helpers"][i]
+            yield p
     for i, f in enumerate(files):
         for key in ("base", "this", "other", "orig"):
             lines = f.get(key, "").splitlines(True)
@@ -264,19 +272,27 @@ def execute(sim, plan):
     root = tree._sim_root
     if d:
         tree.mkdir(d, b"dir-id")
-    first = "orig" if mode in ("cherrypick", "reverse") else "base"
+    first = "orig" if mode in ("cherrypick", "reverse", "nobase") else "base"
+    if mode == "nobase":
+        # the files are born after the revision that serves as merge base (merge -r 1..-1):
+        # same file id in THIS and OTHER, no BASE text, no .BASE helper
+        _put(root, "zz", b"placeholder\n")
+        tree.add(["zz"], ids=[b"zz-id"])
+        M.commit(tree, "r0", 0)
+        for f in files:
+            enc[f["name"]]["base"] = b""
     for f in files:
         _put(root, rel[f["name"]], enc[f["name"]][first])
     tree.add([rel[f["name"]] for f in files], ids=[fid[f["name"]] for f in files])
-    M.commit(tree, "r0", 0)
+    M.commit(tree, "r1" if mode == "nobase" else "r0", 0)
     other = M.sprout(tree, "o")
     oroot = other._sim_root
-    steps = {"found": ["other"], "explicit": ["other"], "cherrypick": ["base", "other"], "reverse": ["other", "base"]}[mode]
+    steps = {"found": ["other"], "explicit": ["other"], "nobase": ["other"], "cherrypick": ["base", "other"], "reverse": ["other", "base"]}[mode]
     for n, key in enumerate(steps):
         for f in files:
             _put(oroot, rel[f["name"]], enc[f["name"]][key])
         M.commit(other, "mid" if key == "base" else "other", 1 + n)
-    base_rev = {"found": None, "explicit": b"r0", "cherrypick": b"mid", "reverse": b"mid"}[mode]
+    base_rev = {"found": None, "explicit": b"r0", "nobase": b"r0", "cherrypick": b"mid", "reverse": b"mid"}[mode]
     cherry = mode in ("cherrypick", "reverse")
     for f in files:
         _put(root, rel[f["name"]], enc[f["name"]]["this"])
@@ -293,7 +309,9 @@ def execute(sim, plan):
     real = False
     for f in files:
         e = enc[f["name"]]
-        if e["base"] != e["other"] and e["this"] != e["base"] and e["this"] != e["other"]:
+        if mode == "nobase":
+            need_merge = need_merge or e["this"] != e["other"]
+        elif e["base"] != e["other"] and e["this"] != e["base"] and e["this"] != e["other"]:
             need_merge = True
         if both:
             continue
@@ -340,6 +358,8 @@ def execute(sim, plan):
     expected = {}
     if d:
         expected[d] = (T.DIR, None, False)
+    if mode == "nobase":
+        expected["zz"] = (T.FILE, b"placeholder\n", False)
     want_recs = []
     for f in files:
         n = f["name"]
@@ -348,7 +368,8 @@ def execute(sim, plan):
         expected[rel[n]] = (T.FILE, text, False)
         if conflict:
             want_recs.append(("text conflict", rel[n], None, fid[n], None, None))
-            expected[rel[n] + ".BASE"] = (T.FILE, e["base"], False)
+            if mode != "nobase":
+                expected[rel[n] + ".BASE"] = (T.FILE, e["base"], False)
             expected[rel[n] + ".THIS"] = (T.FILE, e["this"], False)
             expected[rel[n] + ".OTHER"] = (T.FILE, e["other"], False)
         sim.event("file", n, _h(e["base"], e["this"], e["other"]), "conflict" if conflict else "clean")
@@ -389,6 +410,15 @@ def execute(sim, plan):
     if sel is not None and not sel:
         return
     key = "this" if action == "take_this" else "other"
+    # the user may have thrown helper files away already (never the one the action needs)
+    for suffix in res.get("rm_helpers") or ():
+        if suffix != "." + key.upper():
+            for f in files:
+                q = rel[f["name"]] + suffix
+                if q in expected and (sel is None or rel[f["name"]] in sel):
+                    os.unlink(os.path.join(root, q))
+                    del expected[q]
+                    sim.probe("helper_removed_by_user")
     try:
         with contextlib.redirect_stdout(io.StringIO()):
             _mod_conflicts.resolve(tree, sel, action=action)
@@ -403,7 +433,7 @@ def execute(sim, plan):
         if ref[n][1] and (sel is None or rel[n] in sel):
             expected[rel[n]] = (T.FILE, enc[n][key], False)
             for suffix in (".BASE", ".THIS", ".OTHER"):
-                del expected[rel[n] + suffix]
+                expected.pop(rel[n] + suffix, None)
             want_recs = [r for r in want_recs if r[1] != rel[n]]
             sim.probe("resolved_" + action)
     final = T.disk_snapshot(root, "bzr")
